@@ -98,6 +98,8 @@ func c13Scenarios(tier string) []*Scenario {
 			r.AllocateCounter("n", map[string]string{"a": "b"}).ReportCount(1)
 			r.AllocateGauge("m", nil).ReportGauge(1.5)
 			x.Vals["tmax"] = rt.NowNanos()
+			// the application does something else for a while: the reporter's goroutines get to run
+			rt.GoNamed("idle", func() {}).Join()
 			if err := r.Close(); err != nil {
 				x.failf("close-error", "%v", err)
 			}
